@@ -872,7 +872,10 @@ impl Parser {
                                 },
                                 _ => {
                                     self.drop_lexem();
-                                    self.parse_expr().unwrap().unwrap()
+                                    match self.parse_expr()? {
+                                        Some(field) => field,
+                                        None => return Err(String::from("Error parsing ORDER BY")),
+                                    }
                                 }
                             };
                             order_by_fields.push(actual_field);
